@@ -6,6 +6,7 @@
    fault positions and kinds in every cycle. *)
 From ToughV Require Export Model.Base Model.Sig Model.Deleg Model.Client.
 From ToughV Require Import Proofs.ClientP Proofs.RollbackP.
+From ToughV Require Export Proofs.ClientP Proofs.DelegLoadP Proofs.LivenessP Proofs.LockoutP.
 Export RollbackP.
 
 Theorem C15_protection_survives : rollback_online_stmt fixed.
@@ -40,3 +41,35 @@ Print Assumptions C15_truncate_and_write_refuted.
 Example C15_example : results fixed f9_history = [Some (1, 5); None; None]
                       /\ results not_atomic f9_history = [Some (1, 5); None; Some (1, 4)].
 Proof. split; [exact f9_fixed|exact f9_not_atomic]. Qed.
+
+(* Whatever happened before - any number of cycles, each killed before, in the middle of or after any
+   datastore operation, or with a failing write - every document the datastore holds afterwards was in
+   the initial datastore or was served to one of those cycles (no torn or invented state), and the
+   recorded time is the clock value of one of them ... *)
+Theorem C15_store_provenance : forall h s0,
+  (forall x, st_ts (end_store fixed h s0) = Some (SDoc x) -> known_ts s0 h x)
+  /\ (forall x, st_snap (end_store fixed h s0) = Some (SDoc x) -> known_snap s0 h x)
+  /\ (forall x, st_tgt (end_store fixed h s0) = Some (SDoc x) -> known_tgt s0 h x)
+  /\ (forall t, st_time (end_store fixed h s0) = Some (SDoc t) -> known_time s0 h t).
+Proof. exact store_provenance. Qed.
+Print Assumptions C15_store_provenance.
+
+(* ... hence an interrupted or failed cycle never leaves the datastore in a state that makes the client
+   refuse a valid repository that is at least as new: the next uninterrupted cycle against such a
+   repository succeeds (same statement as C03_never_locked_out; histories range over all faults). *)
+Theorem C15_never_locked_out : forall h s0 c r ts sn t0 t,
+  cy_fault c = None ->
+  (forall tm, known_time s0 h tm -> (tm <= cy_now c)%Z) ->
+  final_root fixed c = Some r ->
+  (c_enforce (cy_cfg c) = true -> (cy_now c <= r_expires r)%Z) ->
+  ts_accepted (cy_cfg c) r (cy_srv c) (cy_now c) store0 ts ->
+  snap_accepted (cy_cfg c) r ts (cy_srv c) (cy_now c) store0 sn ->
+  tgt_accepted (cy_cfg c) r sn (cy_srv c) (cy_now c) store0 t0 ->
+  tgt_tree (cy_cfg c) (cy_srv c) sn (r_cs r) t0 t -> validate t = true ->
+  (forall x, known_ts s0 h x -> root_verify r 3 (ts_sigs x) = true -> ts_version x <= ts_version ts) ->
+  (forall x, known_snap s0 h x -> root_verify r 1 (sn_sigs x) = true -> snap_rollback_ok x sn) ->
+  (forall x, known_tgt s0 h x -> root_verify r 2 (tg_sigs x) = true -> tg_version x <= tg_version t0) ->
+  exists w', run_cycle fixed c (end_store fixed h s0)
+             = (Ok {| rp_root := r; rp_ts := ts; rp_snap := sn; rp_targets := t |}, w').
+Proof. exact never_locked_out. Qed.
+Print Assumptions C15_never_locked_out.
